@@ -124,8 +124,13 @@ func (s *bufScn) doRead(g, dir int, c net.Conn, n int) string {
 }
 func (s *bufScn) doDeadline(g, dir int, kind string, c net.Conn, ms int) {
 	var t time.Time
-	if ms > 0 {
+	switch {
+	case ms > 0:
 		t = time.Now().Add(time.Duration(ms) * time.Millisecond)
+	case ms == -1: // a deadline that has long passed (the idiom to abort a call that is in progress)
+		t = time.Unix(1, 0)
+	case ms == -2:
+		t = time.Now()
 	}
 	s.call(g, kind, dir, ms, nil, func() (int, []byte, error) {
 		if kind == "setRD" || kind == "clrRD" {
@@ -313,6 +318,40 @@ func (s *bufScn) staleTimer() {
 	rdone.wait()
 }
 
+// pastDeadline: a call is already waiting (a Read on the empty pipe / a Write on the full pipe, seen parked) when a deadline that has
+// passed is set on its end: the deadline must unblock it with a timeout
+func (s *bufScn) pastDeadline(variant int) {
+	parked := func(gid *atomic.Int64, done *gate) {
+		waitFor(func() bool {
+			select {
+			case <-done.ch:
+				return true
+			default:
+			}
+			return strings.HasPrefix(goroutineStates()[gid.Load()], "[sync.Cond.Wait")
+		}, 5*time.Second)
+	}
+	ms := -1 - variant%2
+	done := newGate()
+	var gid atomic.Int64
+	if variant < 2 {
+		c := s.rconn(1)
+		s.crew.spawn(func() { gid.Store(curGID()); s.doRead(2, 1, c, 1); done.open() })
+		parked(&gid, done)
+		s.doDeadline(5, 1, "setRD", c, ms)
+		return
+	}
+	w := s.wconn(1)
+	fill := make([]byte, s.cap)
+	for i := range fill {
+		fill[i] = streamByte(1, i)
+	}
+	s.doWrite(1, 1, w, fill) // fits exactly: returns
+	s.crew.spawn(func() { gid.Store(curGID()); s.doWrite(2, 1, w, []byte{streamByte(1, s.cap)}); done.open() })
+	parked(&gid, done)
+	s.doDeadline(5, 1, "setWD", w, ms)
+}
+
 var capChoices = []int{1, 1, 1, 2, 2, 2, 3, 3, 3, 4, 4, 5, 6, 7, 8, 8, 9, 12, 16, 17, 31, 32, 33, 63, 64}
 
 func genPlan(r *rand.Rand, cp int) dirPlan {
@@ -373,8 +412,11 @@ func runBufScenario(id, run int) bool {
 	if id%100 == 99 {
 		s.fam = "staletimer"
 	}
+	if id%50 == 24 {
+		s.fam = "pastdeadline"
+	}
 	switch s.fam {
-	case "walk", "staletimer":
+	case "walk", "staletimer", "pastdeadline":
 	case "stream":
 		s.plans[0] = genPlan(r, s.cap)
 	case "duplex":
@@ -440,6 +482,9 @@ func runBufScenario(id, run int) bool {
 	if s.fam == "staletimer" {
 		s.crew.spawn(s.staleTimer)
 	}
+	if s.fam == "pastdeadline" {
+		s.crew.spawn(func() { s.pastDeadline(r.Intn(4)) })
+	}
 	for d := 1; d <= 2; d++ {
 		if s.plans[d-1].active {
 			d := d
@@ -469,7 +514,7 @@ func runBufScenario(id, run int) bool {
 	s.rec.add(event{T: "check"})
 	verifkit.Emit(map[string]any{"scn": id, "run": run, "fam": s.fam, "cap": s.cap, "progress": ok,
 		"staged": s.staged,
-		"dirs":   []bool{s.plans[0].active || s.fam == "walk" || s.fam == "staletimer", s.plans[1].active}, "events": s.rec.snapshot()})
+		"dirs":   []bool{s.plans[0].active || s.fam == "walk" || s.fam == "staletimer" || s.fam == "pastdeadline", s.plans[1].active}, "events": s.rec.snapshot()})
 	return ok
 }
 
